@@ -184,6 +184,286 @@ example (ζ : ℕ → ℚ) (hζ : exPz.Feas (fun _ _ _ => False) ζ) : exR.eval 
     (by intro q hq; simp [exPz] at hq) (by intro _ e he; simp [exPz] at he) exV ex_feas 0
     (by decide) ζ hζ
 
+/-! #### Random variables declared after the set ("late" random variables)
+
+`RoConstr.le_to_rc` takes `num_rand = min(raffine.shape[1], support.linear.shape[0])`.  When random
+variables are declared after `forall()` / `minmax()` formulated the set, the rows have more random
+components than the support program has columns (`R.nz > Pz.lp.nc`): the support program does not
+know — hence does not restrict — the components `j ≥ Pz.lp.nc`.  The code appends
+`raffine[:, num_rand:] == 0` (block (4) of the model), which makes the counterpart safe for
+*every* value of those components. -/
+
+/-- **Safety of the robust counterpart without `hnz`** (random variables declared after the set
+allowed, `R.nz` arbitrary): every assignment `v` feasible for the counterpart fragment satisfies
+uncertain row `n` at every realisation `ζ` whose first `Pz.lp.nc` components form a point `ζ₀` of
+the (lifted) support program — the components `j ≥ Pz.lp.nc` of `ζ` are arbitrary (unrestricted
+random variables).
+
+Structural hypotheses replacing `hnz`/`hq` of `rc_sound`: `k` is the number of genuine random
+components the support program knows (its leading columns; the lifted columns follow):
+* `hk`    : `k ≤ Pz.lp.nc`;
+* `hq`    : in the compact dual layout the second-order cones sit on columns `≥ k`;
+* `hlift` : the rows do not depend on the lifted columns `k ≤ j < Pz.lp.nc` (their coefficients are
+  structurally zero — users cannot address lifted columns; `raffine` merely has columns for them
+  when the row was built after the set was formulated).
+Nothing is assumed about `R.nz`.  With `k = R.nz ≤ Pz.lp.nc` this is `rc_sound` (`hlift` is vacuous),
+with `k = min R.nz Pz.lp.nc` it is `rc_sound_late'` below. -/
+theorem rc_sound_late (Pz : ConeProg K) (E : K → K → K → Prop) (hE : ExpPair E) (hwf : Pz.WF)
+    (hones : ∀ j, Pz.lp.c j = 1)
+    (R : RoRows K)
+    (k : ℕ) (hk : k ≤ Pz.lp.nc)
+    (hq : Pz.rowsRemoved = true → ∀ q ∈ Pz.qmat, ∀ j ∈ q, k ≤ j)
+    (hlift : ∀ n < R.m, ∀ j, k ≤ j → j < Pz.lp.nc → j < R.nz →
+      R.Rc n j = 0 ∧ ∀ d < R.nd, R.Rl n j d = 0)
+    (hxq : Pz.rowsRemoved = true → ∀ e ∈ Pz.xmat, ∀ j ∈ e, j ∉ Pz.eye)
+    (v : ℕ → K) (hv : (R.leToRc Pz.coneDual).prog.Feas E v)
+    (n : ℕ) (hn : n < R.m)
+    (ζ₀ : ℕ → K) (hζ₀ : Pz.Feas E ζ₀)
+    (ζ : ℕ → K) (hζ : ∀ j < Pz.lp.nc, ζ j = ζ₀ j) :
+    R.eval n v ζ ≤ 0 := by
+  set S := Pz.coneDual with hS
+  set k₀ := min R.nz k with hk₀
+  have hk₀k : k₀ ≤ k := Nat.min_le_right _ _
+  have hk₀z : k₀ ≤ R.nz := Nat.min_le_left _ _
+  set c' : ℕ → K := fun j => if j < k₀ then - R.coef n j v else 0 with hc'
+  -- layout facts
+  have hkS : k ≤ S.lp.nr := by
+    by_cases hr : Pz.rowsRemoved = true
+    · exact le_coneDual_nr Pz k hk (hq hr)
+    · rw [hS, coneDual_nr, if_neg hr]; exact hk
+  have hSle : S.lp.nr ≤ Pz.lp.nc := coneDual_nr_le Pz
+  have hlt : ∀ j < k, Pz.rowIdx j = j := by
+    intro j hj
+    by_cases hr : Pz.rowsRemoved = true
+    · exact rowIdx_lt Pz k hk (hq hr) j hj
+    · unfold rowIdx; rw [if_neg hr]
+  have hge : ∀ r, k ≤ r → r < S.lp.nr → k ≤ Pz.rowIdx r := by
+    intro r hr1 hr2
+    by_cases hr : Pz.rowsRemoved = true
+    · exact rowIdx_ge Pz k hk (hq hr) r hr1 hr2
+    · unfold rowIdx; rw [if_neg hr]; exact hr1
+  have hnumz : R.numRand S ≤ R.nz := Nat.min_le_left _ _
+  have hnumS : R.numRand S ≤ S.lp.nr := Nat.min_le_right _ _
+  -- the coefficients of the lifted columns vanish structurally, those of the late columns by block (4)
+  have hcoef0 : ∀ j, k ≤ j → j < Pz.lp.nc → j < R.nz → R.coef n j v = 0 := by
+    intro j h1 h2 h3
+    obtain ⟨hc, hl⟩ := hlift n hn j h1 h2 h3
+    unfold coef
+    rw [hc, add_zero]
+    apply Finset.sum_eq_zero; intro d hd
+    rw [hl d (Finset.mem_range.mp hd), zero_mul]
+  have hlate : ∀ j, Pz.lp.nc ≤ j → j < R.nz → R.coef n j v = 0 := fun j h1 h2 =>
+    leToRc_late_zero R S E v hv n hn j (by omega) h2
+  have hb : S.lp.b = Pz.dualRhs Pz.lp.c := coneDual_b Pz
+  -- the multipliers of row `n` are feasible for the conic dual of the re-costed support program
+  have hy : (Pz.withCost c').coneDual.Feas E (fun i => v (R.ycol S n i)) := by
+    rw [coneDual_withCost]
+    apply leToRc_extract R S E (coneDual_ub Pz) (coneDual_lb Pz) (coneDual_xlen Pz) v hv n hn
+    intro j hj
+    rw [hb]
+    unfold dualRhs
+    by_cases h : j < k₀
+    · have hjk : j < k := by omega
+      have hjn : j < R.numRand S := by
+        unfold numRand; exact lt_min (by omega) (by omega)
+      rw [if_pos hjn, hlt j hjk, hones]
+      simp only [hc', h, if_true]
+      split_ifs <;> ring
+    · have hidx : ¬ Pz.rowIdx j < k₀ := by
+        by_cases hjk : j < k
+        · rw [hlt j hjk]; exact h
+        · have := hge j (by omega) hj
+          omega
+      simp only [hc', hidx, if_false]
+      by_cases hjn : j < R.numRand S
+      · rw [if_pos hjn]
+        have hkj : k ≤ j := by
+          by_contra hkj
+          exact h (lt_min (by omega) (by omega))
+        rw [hcoef0 j hkj (by omega) (by omega)]
+        split_ifs <;> simp
+      · rw [if_neg hjn]
+        split_ifs <;> simp
+  have hwf' : (Pz.withCost c').WF := ⟨hwf.qlt, hwf.xlen, hwf.xlt, hwf.xnotneg, hwf.stcov⟩
+  have hζ' : (Pz.withCost c').Feas E ζ₀ :=
+    ⟨⟨hζ₀.lin.rows, hζ₀.lin.ubs, hζ₀.lin.lbs⟩, hζ₀.soc, hζ₀.exp⟩
+  have hcz : (Pz.withCost c').rowsRemoved = true →
+      ∀ q ∈ (Pz.withCost c').qmat, ∀ j ∈ q, (Pz.withCost c').lp.c j = 0 := by
+    intro hr q hq' j hj
+    have := hq hr q hq' j hj
+    show c' j = 0
+    simp only [hc', show ¬ j < k₀ by omega, if_false]
+  have hweak := coneDual_weak (Pz.withCost c') E hE hwf' hcz hxq ζ₀ _ hζ' hy
+  have hobjS : (Pz.withCost c').coneDual.lp.obj (fun i => v (R.ycol S n i))
+      = ∑ i ∈ range S.lp.nc, S.lp.c i * v (R.ycol S n i) := by
+    rw [coneDual_withCost]; rfl
+  -- primal objective at `ζ₀` = minus the uncertain part of the row at `ζ`
+  have hobjP : (Pz.withCost c').lp.obj ζ₀ = - ∑ j ∈ range R.nz, R.coef n j v * ζ j := by
+    show ∑ j ∈ range Pz.lp.nc, c' j * ζ₀ j = _
+    rw [sum_range_tail_zero k₀ Pz.lp.nc (by omega) (fun j => c' j * ζ₀ j)
+        (fun j => - (R.coef n j v * ζ₀ j))
+        (by intro j hj; simp only [hc', hj, if_true]; ring)
+        (by intro j h1 _; simp only [hc', show ¬ j < k₀ by omega, if_false, zero_mul]),
+      sum_range_tail_zero k₀ R.nz hk₀z (fun j => R.coef n j v * ζ j)
+        (fun j => R.coef n j v * ζ₀ j)
+        (by intro j hj; show R.coef n j v * ζ j = R.coef n j v * ζ₀ j; rw [hζ j (by omega)])
+        (by
+          intro j h1 h2
+          have hkj : k ≤ j := by
+            by_contra hkj
+            exact absurd (lt_min h2 (by omega) : j < min R.nz k) (by omega)
+          show R.coef n j v * ζ j = 0
+          by_cases hjc : j < Pz.lp.nc
+          · rw [hcoef0 j hkj hjc h2, zero_mul]
+          · rw [hlate j (by omega) h2, zero_mul]),
+      Finset.sum_neg_distrib]
+  have hrow1 := hv.lin.rows n (by rw [leToRc_nr]; omega)
+  rw [leToRc_row1 R S n hn, leToRc_b1 R S n hn, leToRc_eq1 R S n hn] at hrow1
+  simp only [Bool.false_eq_true, if_false] at hrow1
+  rw [hobjS, hobjP] at hweak
+  unfold RoRows.eval
+  unfold coef at hweak
+  linarith
+
+/-- `rc_sound_late` in the form closest to `rc_sound`: with `nz₀ = min R.nz Pz.lp.nc` (the random
+components of the rows that the support program knows), the cones sit on columns `≥ nz₀`; the
+realisation `ζ` is any vector whose first `Pz.lp.nc` components are feasible for `Pz`.
+(`Pz.Feas E ζ` reads `ζ` on the columns `< Pz.lp.nc` only when `Pz.WF`, so this says: the late
+components of `ζ` are arbitrary.) -/
+theorem rc_sound_late' (Pz : ConeProg K) (E : K → K → K → Prop) (hE : ExpPair E) (hwf : Pz.WF)
+    (hones : ∀ j, Pz.lp.c j = 1)
+    (R : RoRows K)
+    (hq : ∀ q ∈ Pz.qmat, ∀ j ∈ q, min R.nz Pz.lp.nc ≤ j)
+    (hxq : Pz.rowsRemoved = true → ∀ e ∈ Pz.xmat, ∀ j ∈ e, j ∉ Pz.eye)
+    (v : ℕ → K) (hv : (R.leToRc Pz.coneDual).prog.Feas E v)
+    (n : ℕ) (hn : n < R.m)
+    (ζ₀ : ℕ → K) (hζ₀ : Pz.Feas E ζ₀)
+    (ζ : ℕ → K) (hζ : ∀ j < Pz.lp.nc, ζ j = ζ₀ j) :
+    R.eval n v ζ ≤ 0 :=
+  rc_sound_late Pz E hE hwf hones R (min R.nz Pz.lp.nc) (Nat.min_le_right _ _) (fun _ => hq)
+    (by intro n _ j h1 h2 h3; exact absurd (lt_min h3 h2) (by omega)) hxq v hv n hn ζ₀ hζ₀ ζ hζ
+
+/-- `rc_sound` is the instance `k = R.nz ≤ Pz.lp.nc`, `ζ = ζ₀` of `rc_sound_late` -/
+example (Pz : ConeProg K) (E : K → K → K → Prop) (hE : ExpPair E) (hwf : Pz.WF)
+    (hones : ∀ j, Pz.lp.c j = 1) (R : RoRows K) (hnz : R.nz ≤ Pz.lp.nc)
+    (hq : ∀ q ∈ Pz.qmat, ∀ j ∈ q, R.nz ≤ j)
+    (hxq : Pz.rowsRemoved = true → ∀ e ∈ Pz.xmat, ∀ j ∈ e, j ∉ Pz.eye)
+    (v : ℕ → K) (hv : (R.leToRc Pz.coneDual).prog.Feas E v)
+    (n : ℕ) (hn : n < R.m) (ζ : ℕ → K) (hζ : Pz.Feas E ζ) : R.eval n v ζ ≤ 0 :=
+  rc_sound_late Pz E hE hwf hones R R.nz hnz (fun _ => hq)
+    (by intro n _ j h1 _ h3; omega) hxq v hv n hn ζ hζ ζ (fun _ _ => rfl)
+
+/-! #### The hypotheses of `rc_sound_late` are satisfiable with a late random variable and block (4)
+present: interval support `0 ≤ z ≤ 2`, random variable `u` declared after the set, row
+`x·z + (w - 2)·u - 4 ≤ 0`
+
+Here `R.nz = 2 = Pz.lp.nc + 1`; `num_rand = 1`; the late coefficient `(w - 2)` is decision dependent
+with a non-zero constant, so block (4) is present (`n4 = 1`): the counterpart is `-2·Y ≤ 4`,
+`x + Y ≤ 0`, `w = 2`, `Y ≤ 0`.  It is feasible at `x = 2`, `w = 2`, `Y = -2`, and `rc_sound_late`
+yields `2·ζ_z + (2 - 2)·ζ_u - 4 ≤ 0` for every `ζ_z` in the interval and *every* `ζ_u`. -/
+
+/-- the uncertain row `x·z + (w - 2)·u - 4 ≤ 0` over the decision columns `x`, `w` and the random
+components `z` (known to the support program) and `u` (declared after the set) -/
+def exRL : RoRows ℚ :=
+  { nd := 2, m := 1, nz := 2
+    Rl := fun _ j d => if j = 0 ∧ d = 0 then 1 else if j = 1 ∧ d = 1 then 1 else 0
+    Rc := fun _ j => if j = 1 then -2 else 0
+    al := fun _ _ => 0, ac := fun _ => -4 }
+
+/-- decisions `x = 2`, `w = 2`, multiplier `Y = -2` -/
+def exVL : ℕ → ℚ := fun c => if c = 2 then -2 else 2
+
+lemma exNumL : exRL.numRand exPz.coneDual = 1 := by decide
+lemma exLateP : exRL.latePresent exPz.coneDual = true := by decide
+/-- block (4) is present -/
+lemma exN4 : (exRL.leToRc exPz.coneDual).n4 = 1 := by
+  show exRL.n4 exPz.coneDual = 1
+  rw [n4_present _ _ exLateP, exNumL]; rfl
+
+lemma exL_feas : (exRL.leToRc exPz.coneDual).prog.Feas (fun _ _ _ => False) exVL := by
+  have hnr : (exRL.leToRc exPz.coneDual).prog.lp.nr = 3 := by
+    rw [leToRc_nr, exNumL, exS_nr, n4_present _ _ exLateP, exNumL]; rfl
+  have hnc : (exRL.leToRc exPz.coneDual).prog.lp.nc = 3 := by
+    rw [leToRc_nc, exS_nc]; rfl
+  refine ⟨⟨?_, ?_, ?_⟩, ?_, ?_⟩
+  · intro i hi
+    rw [hnr] at hi
+    obtain rfl | rfl | rfl : i = 0 ∨ i = 1 ∨ i = 2 := by omega
+    · have h := leToRc_row1 exRL exPz.coneDual 0 (by decide) exVL
+      rw [h, leToRc_b1 _ _ 0 (by decide), leToRc_eq1 _ _ 0 (by decide), exS_nc]
+      simp [exS_c, exRL, exVL, ycol, exS_nc]
+      norm_num
+    · have h := leToRc_row2 exRL exPz.coneDual 0 (by decide) 0 (by decide) exVL
+      have hb := leToRc_b2 exRL exPz.coneDual 0 (by decide) 0 (by decide)
+      have he := leToRc_eq2 exRL exPz.coneDual 0 (by decide) 0 (by decide)
+      rw [exNumL] at h hb he
+      have e1 : exRL.m + (0 * 1 + 0) = 1 := rfl
+      rw [e1] at h hb he
+      rw [h, hb, he, exS_eq, exS_nc]
+      simp [exS_a, exS_b, exRL, exVL, ycol, exS_nc, Finset.sum_range_succ]
+    · have hk : 0 < exRL.nz - exRL.numRand exPz.coneDual := by rw [exNumL]; decide
+      have h := leToRc_row4 exRL exPz.coneDual 0 (by decide) 0 hk exVL
+      have hb := leToRc_b4 exRL exPz.coneDual 0 (by decide) 0 hk
+      have he := leToRc_eq4 exRL exPz.coneDual 0 (by decide) 0 hk
+      rw [exNumL, exS_nr] at h hb he
+      have e1 : exRL.m + exRL.m * 1 + exRL.m * (1 - 1) + (0 * (exRL.nz - 1) + 0) = 2 := rfl
+      rw [e1] at h hb he
+      rw [h, hb, he]
+      simp [exRL, exVL, Finset.sum_range_succ]
+  · intro j hj
+    rw [hnc] at hj
+    obtain rfl | rfl | rfl : j = 0 ∨ j = 1 ∨ j = 2 := by omega
+    · simp [leToRc, LinProg.leUb, exRL]
+    · simp [leToRc, LinProg.leUb, exRL]
+    · simp [leToRc, LinProg.leUb, exRL, exS_nc, exS_ub, exVL]
+  · intro j hj
+    rw [hnc] at hj
+    obtain rfl | rfl | rfl : j = 0 ∨ j = 1 ∨ j = 2 := by omega
+    · simp [leToRc, LinProg.geLb, exRL]
+    · simp [leToRc, LinProg.geLb, exRL]
+    · simp [leToRc, LinProg.geLb, exRL, exS_nc, exS_lb, exVL]
+  · intro q hq
+    simp [leToRc, exS_q] at hq
+  · intro e he
+    simp [leToRc, exS_x] at he
+
+/-- all hypotheses of `rc_sound_late` (with `k = 1`) hold for the instance, which has one more
+random component than the support program has columns, and block (4) is present -/
+example :
+    exPz.WF ∧ (∀ j, exPz.lp.c j = 1) ∧ exRL.nz = exPz.lp.nc + 1 ∧ 1 ≤ exPz.lp.nc ∧
+    (exPz.rowsRemoved = true → ∀ q ∈ exPz.qmat, ∀ j ∈ q, 1 ≤ j) ∧
+    (∀ n < exRL.m, ∀ j, 1 ≤ j → j < exPz.lp.nc → j < exRL.nz →
+      exRL.Rc n j = 0 ∧ ∀ d < exRL.nd, exRL.Rl n j d = 0) ∧
+    (exPz.rowsRemoved = true → ∀ e ∈ exPz.xmat, ∀ j ∈ e, j ∉ exPz.eye) ∧
+    (exRL.leToRc exPz.coneDual).n4 = 1 ∧
+    (exRL.leToRc exPz.coneDual).prog.Feas (fun _ _ _ => False) exVL := by
+  refine ⟨exPz_wf, fun _ => rfl, rfl, le_refl _, ?_, ?_, ?_, exN4, exL_feas⟩
+  · intro _ q hq; simp [exPz] at hq
+  · intro n _ j h1 h2 _
+    have : exPz.lp.nc = 1 := rfl
+    omega
+  · intro _ e he; simp [exPz] at he
+
+/-- and `rc_sound_late` gives the robust guarantee `2·ζ_z + (2 - 2)·ζ_u - 4 ≤ 0` for every `ζ_z`
+in the interval and every value `t` of the late random variable -/
+example (ζ₀ : ℕ → ℚ) (hζ₀ : exPz.Feas (fun _ _ _ => False) ζ₀) (t : ℚ) :
+    exRL.eval 0 exVL (fun j => if j = 1 then t else ζ₀ j) ≤ 0 :=
+  rc_sound_late exPz _ (fun _ _ _ _ _ _ h _ => h.elim) exPz_wf (fun _ => rfl) exRL 1 (le_refl _)
+    (by intro _ q hq; simp [exPz] at hq)
+    (by intro n _ j h1 h2 _; have : exPz.lp.nc = 1 := rfl; omega)
+    (by intro _ e he; simp [exPz] at he) exVL exL_feas 0 (by decide) ζ₀ hζ₀ _
+    (by intro j hj; have : exPz.lp.nc = 1 := rfl; rw [if_neg (by omega)])
+
+/-- the late coefficient matters: at `w = 3` (same `x`, `Y`) the row fails for large `ζ_u`, and
+indeed the fragment is then infeasible (block (4) demands `w = 2`) -/
+example : ¬ (exRL.leToRc exPz.coneDual).prog.Feas (fun _ _ _ => False)
+    (fun c => if c = 2 then -2 else if c = 1 then 3 else 2) := by
+  intro hv
+  have h := leToRc_late_zero exRL exPz.coneDual _ _ hv 0 (by decide) 1
+    (by rw [exNumL]) (by decide)
+  simp [coef, exRL, Finset.sum_range_succ] at h
+  norm_num at h
+
 /-! #### Robust equalities -/
 
 /-- negation of a block of rows (what `ro.Model.st` builds for the second half of an `==`
